@@ -440,6 +440,10 @@ func exponentAt(s string, i int) (mag int64, huge bool) {
 // c12Range: exponents around and far beyond the int32 / int64 limits. A literal is accepted exactly when its exponent
 // text fits an int64 and the leading digit's exponent lies in [MinExp, MaxExp] (a zero mantissa only needs the former).
 func c12Range(c *hx.Ctx, r *hx.RNG) {
+	if r.Chance(35) {
+		c12RangeBinary(c, r)
+		return
+	}
 	two := big.NewInt(2)
 	anchors := []*big.Int{
 		new(big.Int).Exp(two, big.NewInt(31), nil), new(big.Int).Exp(two, big.NewInt(32), nil),
@@ -587,5 +591,159 @@ func c12ScanDifferential(c *hx.Ctx, s string) {
 	tol.Mul(tol, new(big.Rat).SetFrac(big.NewInt(1), oracle.Pow10(60)))
 	if d.Cmp(tol) > 0 {
 		c.Violate("scan-value-differs", fmt.Sprintf("Sscan(%q) read %s, *big.Float read %s", s, z.Text('g', 40), bf.Text('g', 40)), "")
+	}
+}
+
+// c12RangeBinary: binary ('p') exponents around and far beyond the int32 / int64 limits. math/big rejects a binary
+// exponent that leaves the int32 range once the radix point is accounted for ("exponent overflow"); the statement asks
+// for the same accepted set and for rejection of exponents outside the int32 range. The two formats normalize their
+// mantissas differently, so within a few bits per digit of the limits the verdict is not judged; beyond that band the
+// literal must be rejected, below it accepted - and an accepted one is inexact (2^k is never a power of ten) and
+// saturates with the accuracy of an overflow / underflow.
+func c12RangeBinary(c *hx.Ctx, r *hx.RNG) {
+	two := big.NewInt(2)
+	anchors := []*big.Int{
+		new(big.Int).Exp(two, big.NewInt(31), nil), new(big.Int).Exp(two, big.NewInt(31), nil), new(big.Int).Exp(two, big.NewInt(32), nil),
+		new(big.Int).Exp(two, big.NewInt(63), nil), new(big.Int).Exp(two, big.NewInt(64), nil),
+		big.NewInt(7200000000), hx.CoefOf(r.Digits(r.Range(10, 30))),
+	}
+	e := new(big.Int).Set(anchors[r.Intn(len(anchors))])
+	e.Add(e, big.NewInt(int64(r.Range(-600, 600))))
+	if r.Chance(30) {
+		e.Add(e, big.NewInt(int64(r.Range(-3000000, 3000000))))
+	}
+	if r.Bool() {
+		e.Neg(e)
+	}
+	pre, alpha, bits := "", "0123456789", int64(0)
+	switch r.Intn(4) {
+	case 0:
+		pre, alpha, bits = []string{"0x", "0X"}[r.Intn(2)], "0123456789abcdefABCDEF", 4
+	case 1:
+		pre, alpha, bits = []string{"0b", "0B"}[r.Intn(2)], "01", 1
+	case 2:
+		pre, alpha, bits = []string{"0o", "0O"}[r.Intn(2)], "01234567", 3
+	}
+	nd := r.Range(1, 30)
+	ds := make([]byte, nd)
+	for i := range ds {
+		ds[i] = alpha[r.Intn(len(alpha))]
+	}
+	zero := r.Chance(8)
+	if zero {
+		ds = []byte(strings.Repeat("0", nd))
+	} else if strings.Trim(string(ds), "0") == "" {
+		ds[0] = '1'
+	}
+	k := nd
+	hasPoint := pre != "" && r.Bool() || pre == "" && r.Chance(30)
+	if hasPoint {
+		k = r.Intn(nd + 1)
+	}
+	var b strings.Builder
+	neg := r.Bool()
+	if neg {
+		b.WriteByte('-')
+	}
+	b.WriteString(pre)
+	b.Write(ds[:k])
+	if hasPoint {
+		b.WriteByte('.')
+		b.Write(ds[k:])
+	}
+	b.WriteByte("pP"[r.Intn(2)])
+	es := e.String()
+	if r.Chance(20) && e.Sign() >= 0 {
+		es = "+" + es
+	}
+	b.WriteString(es)
+	text := b.String()
+	what := fmt.Sprintf("Parse(%q, 0)", text)
+	c.Note(what)
+	if c.Verbose {
+		fmt.Println("case:", what)
+	}
+	// verdict: exp2 = e - (fractional digits x bits per digit); the unjudged band is 4 bits per digit wide plus a little
+	exp2 := new(big.Int).Sub(e, big.NewInt(int64(nd-k)*bits))
+	margin := big.NewInt(int64(4*nd + 80))
+	lim := big.NewInt(1 << 31)
+	abs := new(big.Int).Abs(exp2)
+	verdict := "unjudged"
+	switch {
+	case zero:
+		if e.IsInt64() {
+			verdict = "accept"
+		} else {
+			verdict = "reject"
+		}
+	case abs.Cmp(new(big.Int).Add(lim, margin)) > 0:
+		verdict = "reject"
+	case abs.Cmp(new(big.Int).Sub(lim, margin)) < 0:
+		verdict = "accept"
+	}
+	mode := r.Mode()
+	p := int64(r.Range(1, 45))
+	z := usedRecv(r, p, mode)
+	var res *decimal.Decimal
+	var err error
+	pi := hx.Try(func() { res, _, err = z.Parse(text, 0) })
+	c.Eval(hx.HashStr(what), true, "range-binary/"+verdict)
+	if c.WantSample("range-binary/" + verdict) {
+		c.Sample("range-binary/"+verdict, what)
+	}
+	if pi != nil {
+		c.Violate("panic", fmt.Sprintf("%s: %s panic %q at %s", what, pi.Class, pi.Text, pi.Stack), "")
+		return
+	}
+	if err != nil && res != nil {
+		c.Violate("non-nil-result-with-error", what, "")
+		return
+	}
+	if verdict == "reject" && err == nil {
+		c.Violate("exponent-range", fmt.Sprintf("%s: accepted (stored %s), but the binary exponent %s lies outside the int32 range: math/big reports an exponent overflow", what, hx.Snapshot(res), exp2), "")
+		return
+	}
+	if verdict == "accept" && err != nil {
+		c.Violate("exponent-range", fmt.Sprintf("%s: rejected (%v), but the binary exponent %s lies within the int32 range", what, err, exp2), "")
+		return
+	}
+	if err != nil {
+		return
+	}
+	got := hx.Snapshot(res)
+	if msg := hx.Canonical(res); msg != "" {
+		c.Violate("not-canonical", what+": "+msg, "")
+		return
+	}
+	if zero {
+		if got.V.Form != oracle.Zero || got.V.Neg != neg {
+			c.Violate("wrong-value", fmt.Sprintf("%s: stored %s, want a zero", what, got), "")
+		}
+		return
+	}
+	if got.V.Neg != neg {
+		c.Violate("wrong-value", fmt.Sprintf("%s: stored %s: wrong sign", what, got), "")
+		return
+	}
+	if abs.Cmp(big.NewInt(400)) > 0 {
+		// m x 2^exp2 with |exp2| > 400 has hundreds of significant digits: never exact at these precisions
+		wantAcc := 0
+		switch got.V.Form {
+		case oracle.Inf:
+			wantAcc = map[bool]int{false: 1, true: -1}[neg]
+			if exp2.Sign() < 0 {
+				c.Violate("wrong-value", fmt.Sprintf("%s: stored %s for a value below 1", what, got), "")
+				return
+			}
+		case oracle.Zero:
+			wantAcc = map[bool]int{false: -1, true: 1}[neg]
+			if exp2.Sign() > 0 {
+				c.Violate("wrong-value", fmt.Sprintf("%s: stored %s for a value above 1", what, got), "")
+				return
+			}
+		}
+		if got.Acc == 0 || (wantAcc != 0 && got.Acc != wantAcc) {
+			c.Violate("wrong-acc", fmt.Sprintf("%s: stored %s with Acc()=%d: the value is not representable exactly", what, got, got.Acc), "")
+		}
 	}
 }
